@@ -79,6 +79,11 @@ CHECKS.update({
    text="At every first transmission of a TSN the outstanding bytes (recomputed from the wire and the SACKs actually delivered) must stay within the congestion window and the peer's last advertised window unless nothing was outstanding (probe); packets with user data fit the MTU; cwnd never drops below one MTU, equals max(MTU, MinCwnd) right after a T3 expiry and is at most max(cwnd/2, 4 MTU, MinCwnd) on entering fast recovery.",
    note="cwnd is read at the instant of the packet write and at the preceding quiescent point (the larger is used); retransmissions are not 'new user data' and are not judged against the windows.", ref="6/C10"),
 })
+CHECKS.update({
+ "C03": dict(level="exploration", technique="property-based testing (rapid): crafted and mutated packets injected into live two-endpoint simulations in every handshake/transfer/reset phase, with white-box consistency invariants after every packet and a delivery oracle for must-ignore classes; native coverage-guided fuzzing of injected byte strings (thorough)",
+   text="26 must-be-ignored packet kinds (bad lengths, SACK beyond what was sent, impossible gap blocks, stale forward-TSN, unknown and misplaced chunks, duplicate/out-of-window/empty DATA, bad checksums, raw bytes) and 8 forgery kinds are built relative to the victim's live state and injected at generated instants; after every packet the in-flight, receive and reassembly structures must be mutually consistent and cumulative points monotone; when only must-ignore packets were injected (and no ABORT was sent) every message written before and after is delivered exactly. Panics and hangs are caught at process level with the scenario saved beforehand.",
+   note="Handshake chunks count as 'misplaced' only while the victim is established; the library does not check verification tags, so a well-formed handshake chunk during the handshake is a forgery, not an ignorable packet. Per-packet processing time is bounded by the watchdog, not measured.", ref="6/C03"),
+})
 NOT_YET = {}
 props = [json.loads(l) for l in open(os.path.join(V, "properties.jsonl"))]
 checks = []
